@@ -70,6 +70,25 @@ Proof.
     + cbn [le_value]. rewrite Vt. pose proof (Z.div_mod r radix ltac:(lia)). lia.
 Qed.
 
+Lemma rpow2_cases radix : 2 <= radix <= 256 -> rpow2 radix = true ->
+  exists bits, 1 <= bits <= 8 /\ radix = 2 ^ bits /\ ilog2 radix = Ret bits.
+Proof.
+  intros Hr Hp.
+  assert (H : forallb (fun k => let r := Z.of_nat k in
+                 if (2 <=? r) && rpow2 r
+                 then (r =? 2 ^ Z.log2 r) && (1 <=? Z.log2 r) && (Z.log2 r <=? 8) else true) (seq 0 257) = true)
+    by (vm_compute; reflexivity).
+  rewrite forallb_forall in H. specialize (H (Z.to_nat radix)). rewrite Z2Nat.id in H by lia.
+  specialize (H ltac:(apply in_seq; lia)). cbv zeta in H. rewrite Hp in H.
+  replace (2 <=? radix) with true in H by (symmetry; apply Z.leb_le; lia). cbn [andb] in H.
+  rewrite !andb_true_iff in H. destruct H as [[H1 H2] H3].
+  apply Z.eqb_eq in H1. apply Z.leb_le in H2, H3.
+  exists (Z.log2 radix). split; [lia|]. split; [auto|].
+  unfold ilog2, fls. replace (radix <=? 0) with false by (symmetry; apply Z.leb_gt; lia).
+  replace (1 <=? Z.log2 radix + 1) with true by (symmetry; apply Z.leb_le; lia).
+  cbn [assert_ bind]. f_equal. lia.
+Qed.
+
 Section WithKernels.
 Variable k_mul : list Z -> list Z -> outcome (list Z).
 Variable k_divrem : list Z -> list Z -> outcome (list Z * list Z).
@@ -333,25 +352,6 @@ Hypothesis H_to_bits : forall u bits, (bits = 1 \/ bits = 2 \/ bits = 4 \/ bits 
   k_to_bits u bits = Ret (le_digits (2 ^ bits) (val u)).
 Hypothesis H_to_inexact : forall u bits, (bits = 3 \/ bits = 5 \/ bits = 6 \/ bits = 7) -> canon u -> u <> [] ->
   k_to_inexact u bits = Ret (le_digits (2 ^ bits) (val u)).
-
-Lemma rpow2_cases radix : 2 <= radix <= 256 -> rpow2 radix = true ->
-  exists bits, 1 <= bits <= 8 /\ radix = 2 ^ bits /\ ilog2 radix = Ret bits.
-Proof.
-  intros Hr Hp.
-  assert (H : forallb (fun k => let r := Z.of_nat k in
-                 if (2 <=? r) && rpow2 r
-                 then (r =? 2 ^ Z.log2 r) && (1 <=? Z.log2 r) && (Z.log2 r <=? 8) else true) (seq 0 257) = true)
-    by (vm_compute; reflexivity).
-  rewrite forallb_forall in H. specialize (H (Z.to_nat radix)). rewrite Z2Nat.id in H by lia.
-  specialize (H ltac:(apply in_seq; lia)). cbv zeta in H. rewrite Hp in H.
-  replace (2 <=? radix) with true in H by (symmetry; apply Z.leb_le; lia). cbn [andb] in H.
-  rewrite !andb_true_iff in H. destruct H as [[H1 H2] H3].
-  apply Z.eqb_eq in H1. apply Z.leb_le in H2, H3.
-  exists (Z.log2 radix). split; [lia|]. split; [auto|].
-  unfold ilog2, fls. replace (radix <=? 0) with false by (symmetry; apply Z.leb_gt; lia).
-  replace (1 <=? Z.log2 radix + 1) with true by (symmetry; apply Z.leb_le; lia).
-  cbn [assert_ bind]. f_equal. lia.
-Qed.
 
 Theorem to_radix_le_spec p u radix : radix_std p -> 2 <= radix <= 256 -> canon u ->
   to_radix_le k_mul k_divrem k_divdig k_to_bits k_to_inexact p u radix
